@@ -455,6 +455,13 @@ def get_model_parser(top_rule, comments_model, **kwargs):
                     encoding=encoding,
                 )
 
+                if not hasattr(model, "_tx_parser"):
+                    # The root rule yielded a plain Python value (e.g. an
+                    # abstract rule with a base-type alternative): there is no
+                    # model whose construction ends, so restore the user
+                    # classes here.
+                    self._discard_user_class_state()
+
             except:  # noqa
                 # Restore of user classes replaced attr methods
                 self._discard_user_class_state()
